@@ -990,11 +990,21 @@ func (h *hist) opHook() {
 	case 1:
 		baseDenom = "uosmo" // a voucher that is not registered
 	}
-	data := transfertypes.FungibleTokenPacketData{Denom: baseDenom, Amount: amtStr, Sender: "cosmos1sender", Receiver: u.Acc.String()}
+	receiver := u.Acc.String()
+	zeroRecv := false
+	if h.pick(8) == 0 && amt.IsPositive() && amtStr == amt.String() && baseDenom == ac.IBCBaseDenom {
+		// the receiver is the all-zero address (holding the vouchers the transfer module would just have minted to it): the
+		// coins can be escrowed, but the token contract refuses to mint to 0x0 - the conversion fails AFTER its first step
+		zero := sdk.AccAddress(make([]byte, 20))
+		if err := h.n.App.BankKeeper.SendCoins(h.n.Ctx(), u.Acc, zero, sdk.NewCoins(sdk.NewCoin(ac.IBCCoin, amt))); err == nil {
+			receiver, zeroRecv = zero.String(), true
+		}
+	}
+	data := transfertypes.FungibleTokenPacketData{Denom: baseDenom, Amount: amtStr, Sender: "cosmos1sender", Receiver: receiver}
 	bz, _ := json.Marshal(map[string]string{"denom": data.Denom, "amount": data.Amount, "sender": data.Sender, "receiver": data.Receiver})
 	packet := channeltypes.NewPacket(bz, 1, "transfer", "channel-7", ac.IBCPort, ac.IBCChannel, clienttypes.NewHeight(1, 1000), 0)
 	ack := channeltypes.NewResultAcknowledgement([]byte{1})
-	desc := fmt.Sprintf("ibc-hook %s %s%s [mod=%v pair=%v]", u.Name, amtStr, baseDenom, h.modOn, p.Enabled)
+	desc := fmt.Sprintf("ibc-hook %s %s%s [mod=%v pair=%v zero-receiver=%v]", u.Name, amtStr, baseDenom, h.modOn, p.Enabled, zeroRecv)
 	ps := []*pair{p}
 	h.touched = ps
 	involved := []common.Address{aggtypes.ModuleAddress, u.Eth}
@@ -1021,6 +1031,15 @@ func (h *hist) opHook() {
 	if d := core.DiffSnap(pre.snap, post.snap); len(d) == 0 {
 		h.ops = append(h.ops, desc+" -> nothing")
 		h.r.Count("hook_noop", 1)
+		if zeroRecv {
+			h.r.Count("hook_zero_address_receiver_untouched", 1)
+		}
+		return
+	}
+	if zeroRecv {
+		h.ops = append(h.ops, desc+" -> state changed for the zero-address receiver")
+		h.r.Violation(h.id, "ibc-hook/failed-conversion-left-state-behind", map[string]interface{}{"step": desc, "diff": core.TrimDiff(core.DiffSnap(pre.snap, post.snap), 12), "ops": h.tail()})
+		h.ended = true
 		return
 	}
 	h.ops = append(h.ops, desc+" -> converted")
